@@ -40,7 +40,9 @@ CONSTANTS Actors,        \* actor incarnation ids (naturals)
           SupProc,       \* the proc that stands for the supervisor's handler, or NoProc
           SupCap,        \* capacity of the supervisor's mailbox
           PreMayFail, PostMayFail, StopHooksMayFail,   \* BOOLEAN
-          DrainOnClose   \* FALSE = code as it is (deviation), TRUE = repaired
+          DrainOnClose,  \* FALSE = code as it is (deviation), TRUE = repaired
+          ReportBeforeRelease   \* FALSE = code as it is: a failed start frees the name BEFORE the failure is reported;
+                                \* TRUE = control variant (release only after the report), must violate FailedStartFreesName
 
 NoActor == 0 - 1
 NoProc == 0 - 1
@@ -89,7 +91,7 @@ gvars == <<members, cursor, glock>>
 hvars == <<accepted, handled, hooks, active>>
 vars == <<avars, rvars, pvars, gvars, supq, hvars>>
 
-Phases == {"unspawned", "spawning", "rejected", "dispatched", "prefail", "startfailed", "prestarted",
+Phases == {"unspawned", "spawning", "rejected", "dispatched", "prefail", "prefail2", "startfailed", "prestarted",
            "activated", "poststart", "supstart", "recv", "gotmsg", "handling", "finish", "prestop",
            "closing", "poststop", "releasing", "supterm", "done"}
 \* an actor is live from the moment its task may run pre_start until post_stop returned
@@ -101,7 +103,7 @@ ActivePhases == {"activated", "poststart", "supstart", "recv", "gotmsg", "handli
 GonePhases == {"finish", "prestop", "closing", "poststop", "releasing", "supterm", "done"}
 
 Idle == [t |-> "idle", st |-> "", a |-> NoActor, n |-> 0, k |-> "", res |-> "", idx |-> 0, att |-> 0,
-         atts |-> 0, sf |-> FALSE, name |-> NoName, tok |-> 0 - 1]
+         atts |-> 0, sf |-> FALSE, name |-> NoName, tok |-> 0 - 1, tried |-> {}, dup |-> FALSE]
 
 RECURSIVE InitMembers(_)
 InitMembers(S) == IF S = {} THEN <<>>
@@ -178,14 +180,21 @@ PreStart(a, ok) ==                                      \* logged: hook pre_star
   /\ UNCHANGED <<queue, stopq, stopping, rxopen, cur, exit, startmsg, aname, acap, asup, selfstop, rvars, pvars,
                  gvars, supq, accepted, handled, active>>
 
-\* reg.take(); started_tx.send(Err(error))
+\* pre_start failed.  The code does  reg.take();  THEN  started_tx.send(Err(error)):  the name is free
+\* before the spawner can learn about the failure (so a respawn under the same name cannot collide).
+\* Two steps, in that order; the control variant ReportBeforeRelease swaps them.
 ReleaseFailed(a) ==
-  /\ phase[a] = "prefail"
+  /\ phase[a] = (IF ReportBeforeRelease THEN "prefail2" ELSE "prefail")
   /\ regOwner' = IF aname[a] # NoName THEN [regOwner EXCEPT ![aname[a]] = NoActor] ELSE regOwner
   /\ UNCHANGED regActive
+  /\ SetPhase(a, IF ReportBeforeRelease THEN "startfailed" ELSE "prefail2")
+  /\ UNCHANGED <<queue, stopq, stopping, rxopen, cur, exit, startmsg, aname, acap, asup, selfstop, pvars, gvars, supq, hvars>>
+
+ReportStartFail(a) ==
+  /\ phase[a] = (IF ReportBeforeRelease THEN "prefail" ELSE "prefail2")
   /\ startmsg' = [startmsg EXCEPT ![a] = "err"]
-  /\ SetPhase(a, "startfailed")
-  /\ UNCHANGED <<queue, stopq, stopping, rxopen, cur, exit, aname, acap, asup, selfstop, pvars, gvars, supq, hvars>>
+  /\ SetPhase(a, IF ReportBeforeRelease THEN "prefail2" ELSE "startfailed")
+  /\ UNCHANGED <<queue, stopq, stopping, rxopen, cur, exit, aname, acap, asup, selfstop, rvars, pvars, gvars, supq, hvars>>
 
 \* registration.activate(&actor_ref)
 Activate(a) ==
@@ -571,9 +580,13 @@ GSendLock(p) ==
 GTry(p) ==
   /\ op[p].t = "gsend" /\ op[p].st = "gtry"
   /\ IF op[p].att < op[p].atts /\ members # <<>>
-       THEN /\ op' = [op EXCEPT ![p].att = @ + 1, ![p].a = members[op[p].idx + 1].a, ![p].st = "check"]
+       THEN /\ op' = [op EXCEPT ![p].att = @ + 1, ![p].a = members[op[p].idx + 1].a, ![p].st = "check",
+                                ![p].tried = @ \cup {members[op[p].idx + 1].id},
+                                ![p].dup = @ \/ (members[op[p].idx + 1].id \in op[p].tried)]
             /\ UNCHANGED glock
-       ELSE /\ op' = [op EXCEPT ![p].st = "ret", ![p].res = IF op[p].sf THEN "full" ELSE "closed"]
+       ELSE /\ op' = [op EXCEPT ![p].st = "ret", ![p].res = IF op[p].sf THEN "full" ELSE "closed",
+                                \* ghost: handing back although a member of the group was never tried
+                                ![p].dup = @ \/ (\E i \in 1..Len(members) : members[i].id \notin op[p].tried)]
             /\ glock' = NoProc
   /\ UNCHANGED <<avars, rvars, reply, bud, members, cursor, supq, hvars>>
 
@@ -601,7 +614,7 @@ Reachable(a) == startmsg[a] = "ok"      \* the spawner got the mailbox / a looku
 
 ActorStep(a) ==
   \/ \E ok \in {TRUE} \cup (IF PreMayFail THEN {FALSE} ELSE {}) : PreStart(a, ok)
-  \/ ReleaseFailed(a) \/ Activate(a) \/ StartedSend(a)
+  \/ ReleaseFailed(a) \/ ReportStartFail(a) \/ Activate(a) \/ StartedSend(a)
   \/ \E ok \in {TRUE} \cup (IF PostMayFail THEN {FALSE} ELSE {}) : PostStart(a, ok)
   \/ SupStarted(a) \/ RecvStop(a) \/ RecvMsg(a)
   \/ HandleBegin(a, cur[a]) \/ SelfStop(a) \/ ReplyStep(a)
@@ -709,11 +722,16 @@ RegistrySound ==
        /\ regOwner[nm] # NoActor => aname[regOwner[nm]] = nm /\ phase[regOwner[nm]] \in LivePhases
   /\ \A a \in Actors :
        /\ (aname[a] # NoName /\ phase[a] \in LivePhases) => regOwner[aname[a]] = a
-       /\ (aname[a] # NoName /\ phase[a] \in {"startfailed", "supterm", "done", "rejected"}) => regOwner[aname[a]] # a
+       /\ (aname[a] # NoName /\ phase[a] \in {"prefail2", "startfailed", "supterm", "done", "rejected"}) => regOwner[aname[a]] # a
   /\ \A p \in Procs :
        (op[p].t = "lookup" /\ op[p].st = "ret" /\ op[p].a # NoActor) =>
           /\ aname[op[p].a] = op[p].name
-          /\ Len(hooks[op[p].a]) >= 1 /\ phase[op[p].a] \notin {"dispatched", "prefail", "prestarted", "startfailed"}
+          /\ Len(hooks[op[p].a]) >= 1 /\ phase[op[p].a] \notin {"dispatched", "prefail", "prefail2", "prestarted", "startfailed"}
+
+\* once a start failure is reported (SpawnError::Start can be observed) the name is free again:
+\* an immediate respawn under the same name cannot be refused because of the failed incarnation
+FailedStartFreesName ==
+  \A a \in Actors : (startmsg[a] = "err" /\ aname[a] # NoName) => regOwner[aname[a]] # a
 
 \* the child's name is free before its terminal event is delivered, so a respawn from the event cannot collide
 SupervisionSound ==
@@ -737,9 +755,13 @@ GroupExactlyOne ==
       /\ (op[p].st = "ret" /\ op[p].res # "ok") => Holders(p, op[p].n) = {}
       /\ glock = p => op[p].st \in {"gtry", "check", "push", "gafter"}
 GroupLockSound == glock # NoProc => op[glock].t = "gsend"
+\* "tries each member once": no member is tried twice, and a message is only handed back after every
+\* member that is still in the group was tried (so a live member with room cannot have been skipped)
+GroupTriesEachOnce == \A p \in Procs : ~op[p].dup   \* dup: a member tried twice, or handed back with an untried member
 
 Safety == TypeOK /\ SerialFifo /\ Conservation /\ HandlingOnlyWhileRunning /\ HookOrder /\ CallSound
-          /\ RegistrySound /\ SupervisionSound /\ RespawnNeverCollides /\ GroupExactlyOne /\ GroupLockSound
+          /\ RegistrySound /\ FailedStartFreesName /\ SupervisionSound /\ RespawnNeverCollides /\ GroupExactlyOne
+          /\ GroupLockSound /\ GroupTriesEachOnce
 
 \* --- liveness (on FairSpec) ---
 Waiting(p) == op[p].t \in {"send", "gsend"} /\ op[p].k \in CallKinds /\ op[p].st = "ret" /\ op[p].res = "ok"
